@@ -13,6 +13,9 @@ CHECKS = {
  "C07": ("zcheck", "stateless model checking of receive with cancellation (every read poll may be pending, every pending may be followed by dropping the receive future)",
          "C01's space with two more choices at every transport read: ready/pending and re-poll/cancel. Every subset of suspension points is cancelled for short streams; deviation-bounded for growth-size frames.",
          "Trusted: the scripted ReadHalf is cancel-safe by construction, as the ReadHalf contract demands. Bounded: <=2 frames, streams <= 7/9 bytes fully partitioned, growth sizes with <=1/2 cuts near a 256-byte step.", "4 C07"),
+ "C02": ("zcheck", "stateless model checking of the WriteConnection (complete sweep of all message-length pairs 1..700^2 x 4 operation forms; DFS over all operation histories up to 4/5 operations with lengths placed around the current free space)",
+         "Every execution is a complete operation history on a fresh Connection whose transport logs each write with its boundaries; the oracle is a Vec<u8> of pending bytes. All length pairs meet every free-space value 0..=600; histories include unserializable messages at every position.",
+         "Trusted: serde_json::to_vec as the JSON document of a message; the scripted WriteHalf accepts each write whole. Bounded: histories of <=4 (quick) / <=5 (thorough) operations, lengths from a boundary alphabet relative to free space, message sizes up to ~1.3 KB.", "4 C02"),
 }
 
 NOT_YET = {
